@@ -2,7 +2,7 @@
 From Coq Require Import String Ascii List Bool Arith.
 From KV Require Import Lib.Str Lib.ODict Model.Vpp Gen.UmlSrc Model.Uml Spec.UmlSpec Model.UmlBlob Model.UmlWriter Model.UmlSem
                        Proofs.UmlProofs Proofs.UmlFiles Proofs.UmlBlobTop Proofs.UmlBlobRound Proofs.UmlBlobVis Proofs.UmlBlobCompose
-                       Proofs.UmlSemGoals Proofs.UmlSemWf Proofs.UmlSemOp Proofs.UmlSemAttr Proofs.UmlSemClass Proofs.UmlSemLoad.
+                       Proofs.UmlSemGoals Proofs.UmlSemWf Proofs.UmlSemOp Proofs.UmlSemAttr Proofs.UmlSemClass Proofs.UmlSemAssoc Proofs.UmlSemLoad.
 Import ListNotations.
 Open Scope string_scope.
 
@@ -12,7 +12,7 @@ Proof.
   intros S H. unfold encode_project.
   change (sd_name S) with (wd_name (tree_of S)).
   rewrite (load_struct (tree_of S) (tree_of_wf_drawn S H)).
-  exact (load_semantic (build_class build_op build_attr) build_package build_inh S H).
+  exact (load_semantic (build_class build_op build_attr) build_package build_inh build_assoc S H).
 Qed.
 
 Lemma adaptor_roundtrip : forall S : sdiagram, sdiagram_ok S = true ->
